@@ -13,26 +13,85 @@
 (* Auth!Allowed on the state loaded for that check - the cache is          *)
 (* unobservable, so the verdict is a function of the event and the state   *)
 (* it needs, whatever was checked before.                                  *)
+(*                                                                         *)
+(* Identity is the identity of the event OBJECT, which is finer than the   *)
+(* event ID: two different objects can carry one event ID - an event and   *)
+(* its redacted copy (the event ID is computed over the redacted form in   *)
+(* room versions 3+, and is a kept top-level key in versions 1-2), or two  *)
+(* events whose sender picked the same ID (versions 1-2; a trusted load    *)
+(* under a given ID in any version).  A step therefore names, per cached   *)
+(* kind, the event ID (tag), whether the provider holds the redacted copy, *)
+(* and the content; the relations between two steps are                    *)
+(*   same ID, same object            | new ID, same content                *)
+(*   new ID, new content             | event removed                       *)
+(*   same ID, other object, other content (forged / sender-chosen ID)      *)
+(*   same ID, redacted copy (content shrinks per the redaction algorithm   *)
+(*                           of the room version, or stays the same)       *)
+(* CacheKey selects what the modelled cache compares: "object" is the      *)
+(* design; with "eventid" TLC refutes Coherent (kept as a sanity check of  *)
+(* the pool: it must contain sequences that tell the two apart).           *)
 (***************************************************************************)
 EXTENDS Auth
 
-CONSTANTS Versions, MaxLen
+CONSTANTS Versions, MaxLen, CacheKey
 
-\* ---- the pool of (state, event) steps; tags give event identities -----------------
-\* a component with the same tag and content in two steps is the *same event object*
-Step(st, ev, ct, pt, jt) == [st |-> st, ev |-> ev, ctag |-> ct, ptag |-> pt, jtag |-> jt]
+Rd == INSTANCE Redaction
+
+\* ---- the pool of (state, event) steps; tags give event IDs --------------------------
+\* a component with the same tag, same redaction flag and same content in two steps is the *same event object*
+Step(st, ev, ct, pt, jt) == [st |-> st, ev |-> ev, ctag |-> ct, ptag |-> pt, jtag |-> jt,
+                             cred |-> FALSE, pred |-> FALSE, jred |-> FALSE]
+RedC(s) == [s EXCEPT !.cred = TRUE]      \* the provider holds the redacted copy of the create event
+RedP(s) == [s EXCEPT !.pred = TRUE]      \* ... of the power-levels event
+RedJ(s) == [s EXCEPT !.jred = TRUE]      \* ... of the join-rules event
 
 RoomBase == WithMem(WithMem(BaseSt, "creator", "join"), "carol", "join")
 WithJR(s, jr) == [s EXCEPT !.jr = jr]
 Msg(u) == [BaseEv EXCEPT !.sender = u]
 Topic(u) == [BaseEv EXCEPT !.sender = u, !.type = "topic", !.skey = "empty"]
 PLOne(ed, bobLevel) == [EmptyPL EXCEPT !.events_default = ed, !.users = [u \in Users |-> IF u = "bob" THEN bobLevel ELSE Absent]]
+\* a power-levels content whose `invite` and `notifications` matter: bob (level 50) may send power-levels events
+\* but neither invite nor touch the room notification level
+PLRich == [EmptyPL EXCEPT !.invite = 4, !.notif = [k \in NKeys |-> IF k = "room" THEN 4 ELSE Absent],
+                          !.users = [u \in Users |-> IF u = "bob" THEN 3 ELSE Absent]]
+PLEvBy(u, c) == [BaseEv EXCEPT !.type = "pl", !.sender = u, !.skey = "empty", !.newpl = c]
+
+\* ---- what redaction leaves of the three cached contents (Redaction.tla, per room version) -----
+KeptKey(v, t, k) == Rd!KeepAllContent(RedactionAlgo(v), t) \/ k \in Rd!ContentKeep(RedactionAlgo(v), t)
+
+RedactedPL(v, c) ==
+    LET keep(k) == KeptKey(v, "m.room.power_levels", k)
+        sc(k) == IF keep(k) THEN c[k] ELSE Absent
+    IN [c EXCEPT !.ban = sc("ban"), !.kick = sc("kick"), !.invite = sc("invite"), !.redact = sc("redact"),
+                 !.events_default = sc("events_default"), !.state_default = sc("state_default"),
+                 !.users_default = sc("users_default"),
+                 !.users = IF keep("users") THEN @ ELSE [u \in Users |-> Absent],
+                 !.events = IF keep("events") THEN @ ELSE [k \in EvKeys |-> Absent],
+                 !.notif = IF keep("notifications") THEN @ ELSE [k \in NKeys |-> Absent]]
+
+RedactedCreate(v, c) ==
+    [c EXCEPT !.federate = IF KeptKey(v, "m.room.create", "m.federate") THEN @ ELSE "absent",
+              !.addl = IF KeptKey(v, "m.room.create", "additional_creators") THEN @ ELSE {}]
+
+RedactedJR(v, jr) == IF jr = "absent" \/ KeptKey(v, "m.room.join_rules", "join_rule") THEN jr ELSE "nokey"
+
+\* the auth state the provider actually holds in a step
+Held(v, s) ==
+    [s.st EXCEPT !.create = IF s.cred THEN RedactedCreate(v, @) ELSE @,
+                 !.pl.c = IF s.pred THEN RedactedPL(v, @) ELSE @,
+                 !.jr = IF s.jred THEN RedactedJR(v, @) ELSE @]
 
 Pool(v) ==
   LET fedFalse == [RoomBase EXCEPT !.create.federate = "false",
-                                   !.create.room = IF DomainlessRoomIDs(v) THEN "other" ELSE "same"] IN
+                                   !.create.room = IF DomainlessRoomIDs(v) THEN "other" ELSE "same"]
+      richRoom == WithPL(WithMem(RoomBase, "bob", "join"), PLRich)
+      s1 == Step(WithJR(RoomBase, "restricted"), [MemberEv("bob", "bob", "join") EXCEPT !.authvia = "creator"], 1, 0, 1)
+      s24 == Step(WithMem([RoomBase EXCEPT !.create.federate = "false"], "bob", "join"), Msg("bob"), 1, 0, 0)
+      s26 == Step(richRoom, MemberEv("bob", "alice", "invite"), 1, 3, 0)
+      s28 == Step(richRoom, PLEvBy("bob", PLRich), 1, 3, 0)
+  IN
   << \* 1 restricted join authorised by the creator (the check treats the rule as public)
-     Step(WithJR(RoomBase, "restricted"), [MemberEv("bob", "bob", "join") EXCEPT !.authvia = "creator"], 1, 0, 1),
+     s1,
      \* 2 restricted join without authoriser by a user who is not invited
      Step(WithJR(RoomBase, "restricted"), MemberEv("alice", "alice", "join"), 1, 0, 1),
      \* 3 restricted join by an invited user without authoriser (the check treats the rule as invite)
@@ -70,30 +129,64 @@ Pool(v) ==
      Step(WithMem(RoomBase, "bob", "leave"), Msg("bob"), 1, 0, 0),
      Step(WithMem(RoomBase, "bob", "ban"), Msg("bob"), 1, 0, 0),
      Step(WithPL(RoomBase, PLOne(1, 2)), Msg("bob"), 1, 2, 0),
-     Step(RoomBase, Topic("alice"), 1, 0, 0)
+     Step(RoomBase, Topic("alice"), 1, 0, 0),
+     \* ---- one event ID, another event object with OTHER content (sender-chosen IDs of room versions 1-2, or a
+     \* forged copy loaded under the ID): the ID says nothing about the content
+     \* 22 as 12 (message at the required level) but the power-levels event carries the ID of the one in 11
+     Step(WithPL(WithMem(RoomBase, "bob", "join"), PLOne(1, 2)), Msg("bob"), 1, 1, 0),
+     \* 23 as 4 (public join) but the join-rules event carries the ID of the invite-only rule in 5
+     Step(WithJR(RoomBase, "public"), MemberEv("alice", "alice", "join"), 1, 0, 3),
+     \* 24 as 10 but the create event, under the usual create event's ID, forbids federation
+     s24,
+     \* 25 as 14 but the create event, under the usual ID, names alice as an additional creator
+     Step(WithMem([RoomBase EXCEPT !.create.addl = {"alice"}], "alice", "join"), Topic("alice"), 1, 0, 0),
+     \* ---- an event and its redacted copy (same event ID; what the copy still says depends on the room version)
+     \* 26 / 27 bob's invite under a power-levels event that reserves invites, and under its redacted copy
+     \*         (`invite` survives redaction from room version 11 on only)
+     s26, RedP(s26),
+     \* 28 / 29 bob re-sends that power-levels content, judged against the event and against its redacted copy
+     \*         (`notifications` never survives: the copy makes the unchanged content a change above bob's level)
+     s28, RedP(s28),
+     \* 30 as 24 with the redacted copy of that create event (`m.federate` survives from room version 11 on only)
+     RedC(s24),
+     \* 31 as 1 with the redacted copy of the join-rules event (`join_rule` always survives: same content, other object)
+     RedJ(s1)
   >>
 
-NPool == 21
+NPool == 31
+
+\* evaluated once per version (TLC caches constant definitions without parameters)
+PoolOf == [v \in AllVersions |-> Pool(v)]
 
 None == [none |-> TRUE]
 
 VARIABLES ver, seq, loaded, cache, verdicts, phase
 vars == <<ver, seq, loaded, cache, verdicts, phase>>
 
-\* identity of a component of a step: <<tag, content>>, or None when the provider has no such event
-CreateOf(s) == IF s.st.create.present THEN [tag |-> s.ctag, c |-> s.st.create] ELSE None
-PLOfStep(s) == IF s.st.pl.present THEN [tag |-> s.ptag, c |-> s.st.pl.c] ELSE None
-JROf(s) == IF s.st.jr # "absent" THEN [tag |-> s.jtag, c |-> s.st.jr] ELSE None
+\* a component of a step as an event object: <<event ID, redacted?, content held>>, or None when the provider has no such event
+CreateOf(v, s) == IF s.st.create.present THEN [tag |-> s.ctag, red |-> s.cred, c |-> Held(v, s).create] ELSE None
+PLOfStep(v, s) == IF s.st.pl.present THEN [tag |-> s.ptag, red |-> s.pred, c |-> Held(v, s).pl.c] ELSE None
+JROf(v, s) == IF s.st.jr # "absent" THEN [tag |-> s.jtag, red |-> s.jred, c |-> Held(v, s).jr] ELSE None
 
 Init == /\ ver \in Versions /\ seq = <<>> /\ loaded = None /\ verdicts = <<>> /\ phase = "idle"
         /\ cache = [create |-> None, pl |-> None, jr |-> None]
 
+\* are the cached component and the provider's the same as far as the cache can tell?
+SameEvent(old, new) ==
+    /\ old # None /\ new # None
+    /\ IF CacheKey = "object" THEN old = new ELSE old.tag = new.tag
+
+\* refresh on identity change, drop when absent
+Refresh(old, new) == IF SameEvent(old, new) THEN old ELSE new
+
 \* Load: what authAndApplyEvents does before each check (Clear, AddEvent..., update)
 Load(i) ==
     /\ phase = "idle" /\ Len(seq) < MaxLen
-    /\ LET s == Pool(ver)[i] IN
+    /\ LET s == PoolOf[ver][i] IN
        /\ loaded' = s
-       /\ cache' = [create |-> CreateOf(s), pl |-> PLOfStep(s), jr |-> JROf(s)]   \* refresh on identity change, drop when absent
+       /\ cache' = [create |-> Refresh(cache.create, CreateOf(ver, s)),
+                    pl |-> Refresh(cache.pl, PLOfStep(ver, s)),
+                    jr |-> Refresh(cache.jr, JROf(ver, s))]
     /\ seq' = Append(seq, i)
     /\ phase' = "loaded"
     /\ UNCHANGED <<ver, verdicts>>
@@ -114,10 +207,27 @@ Next == (\E i \in 1..NPool : Load(i)) \/ Check
 Spec == Init /\ [][Next]_vars
 
 \* ---- the property ---------------------------------------------------------------------
-Coherent == \A k \in 1..Len(verdicts) :
-               verdicts[k] = Allowed(ver, Pool(ver)[seq[k]].st, Pool(ver)[seq[k]].ev)
+\* the verdict a fresh check of the step's event against the state actually supplied gives
+FreshVerdict(v, i) == LET s == PoolOf[v][i] IN Allowed(v, Held(v, s), s.ev)
+
+Coherent == \A k \in 1..Len(verdicts) : verdicts[k] = FreshVerdict(ver, seq[k])
 
 \* and it only depends on the state the event needs
 OnlyNeeded == \A k \in 1..Len(verdicts) :
-               LET s == Pool(ver)[seq[k]] IN verdicts[k] = Allowed(ver, RestrictTo(s.st, Needed(s.ev)), s.ev)
+               LET s == PoolOf[ver][seq[k]] IN verdicts[k] = Allowed(ver, RestrictTo(Held(ver, s), Needed(s.ev)), s.ev)
+
+\* ---- sanity of the pool (a dimension that no version can observe would be dead weight) ----------
+\* every "same ID, other object" relation changes a verdict in some version: the forged copies in every version,
+\* the redacted power-levels / create copies by the redaction algorithm
+PoolSane ==
+    /\ Len(Pool("10")) = NPool
+    /\ \A v \in AllVersions :
+         /\ FreshVerdict(v, 22) # FreshVerdict(v, 11) /\ FreshVerdict(v, 23) # FreshVerdict(v, 5)
+         /\ FreshVerdict(v, 24) # FreshVerdict(v, 10)
+         /\ (FreshVerdict(v, 25) # FreshVerdict(v, 14)) = PrivilegedCreators(v)
+         /\ (FreshVerdict(v, 27) # FreshVerdict(v, 26)) = (RedactionAlgo(v) < 5)
+         /\ FreshVerdict(v, 29) # FreshVerdict(v, 28)
+         /\ (FreshVerdict(v, 30) # FreshVerdict(v, 24)) = (RedactionAlgo(v) < 5)
+         /\ FreshVerdict(v, 31) = FreshVerdict(v, 1)
+ASSUME PoolSane
 =============================================================================
